@@ -589,3 +589,27 @@ package lua
 //@ ensures  "truth-value": result == truthy(callresLV(old(ncalls()), 10))
 //@ ensures  top(lv.L) == old(top(lv.L))
 //@ modifies everything
+
+// ---------------------------------------------------------------------------
+// string.match (manual §5.4; lstrlib str_find_aux with find == 0): start position, and the number of results
+// ---------------------------------------------------------------------------
+
+//@ trusted unsafeFastStringToReadOnlyBytes [C14]
+//@ noraise
+//@ ensures  len(result) == len(s) && offset(result) == 0
+//@ modifies nothing
+
+//@ iface error.Error [C14]
+//@ noraise
+//@ modifies nothing
+
+//@ func strMatch [C14]
+//@ requires Inv_gfn(L) && isStr(arg(L, 1)) && isStr(arg(L, 2)) && (isNil(arg(L, 3)) || isNum(arg(L, 3)))
+// the matcher is started at posrelat(init) - 1 clamped at 0 (0-based), with the pattern as given and limit 1
+//@ assert@"mds, err := pm.Find" offset == max(posrelat(ite(isNil(arg(L, 3)), 1, f2i(num(arg(L, 3)))), len(str(arg(L, 1)))) - 1, 0) && pattern == str(arg(L, 2)) && str == str(arg(L, 1))
+// string.match always returns at least one value: nil when there is no match, else the whole match or the captures
+//@ ensures  "at-least-one-result": result >= 1 && top(L) == old(top(L)) + result
+//@ ensures  argsKept(L)
+//@ modifies L.reg.array, L.reg.top, L.reg.array[*]
+//@ loop 1 invariant Inv_gfn(L) && L.reg == old(L.reg) && argsKept(L) && i >= 2 && i % 2 == 0 && i <= len(md.captures) && len(md.captures) % 2 == 0 && len(md.captures) >= 4 && md != nil && Inv_md(md) && top(L) == old(top(L)) + (i - 2) / 2 && cap(L.reg.array) >= old(cap(L.reg.array)) && arrSameOrFresh(L.reg) && len(str) == len(str(arg(L, 1)))
+//@ loop 1 invariant forall k int :: 0 <= k && k + 1 < len(md.captures) && k % 2 == 0 && md.captures[k] % 2 == 0 ==> md.captures[k] / 2 <= md.captures[k+1] / 2 && md.captures[k+1] / 2 <= len(str)
